@@ -544,3 +544,98 @@ def clique_family(rng, n=None, keys=1):
             used.add((a, b))
             migs.append(dict(source=a, dest=b, rate=rate, **bounds))
     return dict(time_units="generations", demes=demes, migrations=migs)
+
+
+def mutate_targeted(rng, doc):
+    """Rule-targeted mutants of an explicit valid document: for each rule of the data
+    model, a value placed exactly on / one ulp either side of that rule's boundary."""
+    out = []
+    span = _ends(doc)
+    names = [d["name"] for d in doc["demes"]]
+
+    def around(t):
+        if isinstance(t, float) and math.isinf(t):
+            return [t, 1.7976931348623157e308]
+        ft = float(t)
+        return [t, up(ft), down(ft)]
+
+    def emit(kind, fn):
+        d = copy.deepcopy(doc)
+        try:
+            fn(d)
+        except Exception:
+            return
+        out.append((kind, d))
+    for i, dm in enumerate(doc["demes"]):
+        for a in dm["ancestors"]:
+            for v in around(span[a][0]) + around(span[a][1]):
+                emit("deme.start~ancestor", lambda d, v=v: d["demes"][i].__setitem__("start_time", v))
+        if dm["ancestors"]:
+            emit("deme.start=inf-with-ancestors", lambda d: d["demes"][i].__setitem__("start_time", INF))
+            emit("deme.ancestor-self", lambda d: d["demes"][i]["ancestors"].__setitem__(0, dm["name"]))
+            emit("deme.ancestor-later", lambda d: d["demes"][i]["ancestors"].__setitem__(0, names[-1]))
+        else:
+            emit("deme.finite-start-no-ancestors", lambda d: d["demes"][i].__setitem__("start_time", 1e6))
+        if len(dm["ancestors"]) >= 2:
+            for f in (1 + 1e-9, 1 + 3e-9, 1 - 3e-9, 1 - 1e-10):
+                emit("deme.proportions-sum", lambda d, f=f: d["demes"][i]["proportions"].__setitem__(0, dm["proportions"][0] * f))
+            emit("deme.ancestors-dup", lambda d: d["demes"][i]["ancestors"].__setitem__(1, dm["ancestors"][0]))
+        prev = dm["start_time"]
+        for j, ep in enumerate(dm["epochs"]):
+            for v in around(prev):
+                emit("epoch.end~start", lambda d, v=v: d["demes"][i]["epochs"][j].__setitem__("end_time", v))
+            for k in ("start_size", "end_size"):
+                for v in (0, -0.0, 5e-324, INF, -1):
+                    emit("epoch.size", lambda d, k=k, v=v: d["demes"][i]["epochs"][j].__setitem__(k, v))
+            for k in ("selfing_rate", "cloning_rate"):
+                for v in (1, up(1.0), -0.0, down(0.0), 0):
+                    emit("epoch.rate", lambda d, k=k, v=v: d["demes"][i]["epochs"][j].__setitem__(k, v))
+            if ep["start_size"] != ep["end_size"]:
+                emit("epoch.constant-different-sizes", lambda d: d["demes"][i]["epochs"][j].__setitem__("size_function", "constant"))
+            emit("epoch.size_function", lambda d: d["demes"][i]["epochs"][j].__setitem__("size_function", rng.choice(["", "Exponential", "N(t)"])))
+            prev = ep["end_time"]
+        if math.isinf(dm["start_time"]):
+            emit("epoch.infinite-not-constant", lambda d: d["demes"][i]["epochs"][0].__setitem__("end_size", dm["epochs"][0]["start_size"] * 2))
+        emit("deme.name", lambda d: d["demes"][i].__setitem__("name", rng.choice(["", "1a", "a b", "a-b", names[0] if i else names[-1]])))
+    for i, m in enumerate(doc["migrations"]):
+        lo = max(span[m["source"]][1], span[m["dest"]][1])
+        hi = min(span[m["source"]][0], span[m["dest"]][0])
+        for v in around(lo) + around(hi):
+            emit("migration.start~bound", lambda d, v=v: d["migrations"][i].__setitem__("start_time", v))
+            emit("migration.end~bound", lambda d, v=v: d["migrations"][i].__setitem__("end_time", v))
+        emit("migration.end=start", lambda d: d["migrations"][i].__setitem__("end_time", m["start_time"]))
+        for v in (1, up(1.0), -0.0, down(0.0), 1 - sum(x["rate"] for x in doc["migrations"] if x is not m and x["dest"] == m["dest"])):
+            emit("migration.rate", lambda d, v=v: d["migrations"][i].__setitem__("rate", v))
+        emit("migration.same-deme", lambda d: d["migrations"][i].__setitem__("dest", m["source"]))
+        emit("migration.duplicate", lambda d: d["migrations"].append(dict(m, rate=0)))
+        emit("migration.duplicate-first-zero", lambda d: d["migrations"].insert(0, dict(m, rate=0)))
+        emit("migration.abutting", lambda d: d["migrations"].append(dict(m, start_time=m["end_time"], end_time=lo)) if m["end_time"] > lo else None)
+    for i, p in enumerate(doc["pulses"]):
+        dst = p["dest"]
+        for s in p["sources"]:
+            lo = max(span[s][1], span[dst][1])
+            hi = min(span[s][0], span[dst][0])
+            for v in around(lo) + around(hi) + around(span[s][0]) + around(span[dst][1]):
+                emit("pulse.time~bound", lambda d, v=v: d["pulses"][i].__setitem__("time", v))
+        for f in (1.0, up(1.0), 1 + 1e-9):
+            emit("pulse.proportions-sum", lambda d, f=f: d["pulses"][i]["proportions"].__setitem__(0, f - sum(p["proportions"][1:])))
+        emit("pulse.proportion-zero", lambda d: d["pulses"][i]["proportions"].__setitem__(0, rng.choice([0, -0.0])))
+        emit("pulse.source=dest", lambda d: d["pulses"][i]["sources"].__setitem__(0, dst))
+        if len(p["sources"]) > 1:
+            emit("pulse.sources-dup", lambda d: d["pulses"][i]["sources"].__setitem__(1, p["sources"][0]))
+            for s in p["sources"]:
+                emit("pulse.time=source-start", lambda d, s=s: d["pulses"][i].__setitem__("time", span[s][0]))
+        emit("pulse.time-zero", lambda d: d["pulses"][i].__setitem__("time", 0))
+    emit("graph.generation_time", lambda d: d.__setitem__("generation_time", rng.choice([0, -1, INF, 2 if d["time_units"] == "generations" else 0])))
+    emit("graph.time_units", lambda d: d.__setitem__("time_units", ""))
+    emit("graph.doi", lambda d: d.__setitem__("doi", [""]))
+    emit("graph.no-demes", lambda d: d.__setitem__("demes", []))
+    # defaults that are invalid even though unused
+    for sect, key, val in (("epoch", "start_size", 0), ("epoch", "end_time", INF), ("epoch", "selfing_rate", 2),
+                           ("deme", "start_time", 0), ("deme", "ancestors", ["not valid"]), ("migration", "rate", 1.5),
+                           ("migration", "source", "1x"), ("pulse", "time", INF), ("pulse", "proportions", [0.7, 0.7]),
+                           ("pulse", "sources", []), ("deme", "proportions", [0]), ("epoch", "size_function", 3),
+                           ("migration", "end_time", -1), ("pulse", "dest", "")):
+        emit("defaults.unused-invalid", lambda d, s=sect, k=key, v=val: d.__setitem__("defaults", {s: {k: v}}))
+    rng.shuffle(out)
+    return out
